@@ -15,6 +15,7 @@ import (
 	"encoding/json"
 	"fmt"
 	"net"
+	"runtime"
 	"strconv"
 	"testing"
 
@@ -546,6 +547,7 @@ func c14FrameSig(c *c14FrameCase, clause string) string {
 func c14FramesEnumerate(sh *evidence.Shard) {
 	env := sh.Env()
 	th := env.Thorough()
+	runtime.MemProfileRate = 0
 	nviol := 0
 	stop := false
 	run := func(p *evidence.Part, c c14FrameCase) {
